@@ -129,10 +129,30 @@ def _cmp(r, key, args, exp, got):
     return True
 
 
+def failing_calls(curve, fam):
+    """history (results and exceptions ignored): curve functions called with operands they refuse or fail
+    on - mixed groups, missing coordinates, non-integer scalars, coordinates of another extension degree"""
+    ref, opt = mods(curve)
+    M = ref if fam == "ref" else opt
+    G1, G2 = M.G1, M.G2
+    one12 = M.FQ12.one()
+    bad = [lambda: M.add(G1, G2), lambda: M.add(G2, G1), lambda: M.multiply(G1, None), lambda: M.multiply(G2, "3"),
+           lambda: M.multiply(G1, 2.5), lambda: M.double(None), lambda: M.add(G1, None), lambda: M.neg(G1[:1]),
+           lambda: M.is_on_curve(G1, None), lambda: M.eq(G1, G2), lambda: M.multiply(G2[:2] + (one12,), 3),
+           lambda: M.add(G2, G2[:2] + (one12,)), lambda: G2[0] * one12, lambda: one12 * G2[0], lambda: M.twist(G1)]
+    for f in bad:
+        try:
+            f()
+        except Exception:  # noqa: BLE001
+            pass
+
+
 def run_full_case(a):
     """One full-size case: returns (expected, observed) outcomes.  a: curve, group, fam,
     op, P, Q (model affine or None, lists), lamP, lamQ (model field elements), n."""
     curve, group, fam, op = a["curve"], a["group"], a["fam"], a["op"]
+    if a.get("after_failing_calls", True):
+        failing_calls(curve, fam)
     d = params.curves()[curve]
     E = d[group]
     ref, opt = mods(curve)
